@@ -93,6 +93,9 @@ struct WMon {
     ka_window: HashMap<usize, (u64, i32)>,
     /// last time an ACK / NAK / SRTLA ACK reached the sender on any path
     last_feedback: u64,
+    // ---- weak-link verdicts as published once per housekeeping tick (C17) ----
+    /// per link label: (consecutive share-weak verdicts, forced not-weak ticks still owed)
+    c17: HashMap<String, (u32, u32)>,
 }
 
 /// An accepted reload whose application (at the next housekeeping tick) is awaited.
@@ -147,6 +150,54 @@ impl WMon {
         }
         if data_seq(bytes).is_some() {
             self.data_routed += 1;
+        }
+    }
+
+    /// One `stats` event (the snapshot the housekeeping arm publishes every tick).
+    fn on_stats(&mut self, now: u64, line: &str, out: &mut MonOut) {
+        let Ok(v) = serde_json::from_str::<serde_json::Value>(line) else { return };
+        let Some(links) = v["params"]["data"]["links"].as_array() else { return };
+        out.probe("w.c17.tick");
+        // a bypassed tick (throughput under the floor, nobody connected) restarts every history
+        if links.iter().any(|l| l["weak_reason"].as_str() == Some("bypassed")) || links.is_empty() {
+            self.c17.clear();
+            return;
+        }
+        let labels: Vec<String> = links.iter().filter_map(|l| l["label"].as_str().map(|s| s.to_string())).collect();
+        self.c17.retain(|k, _| labels.contains(k));
+        for l in links {
+            let (Some(label), Some(connected), Some(weak)) = (l["label"].as_str(), l["connected"].as_bool(), l["weak"].as_bool()) else { continue };
+            let reason = l["weak_reason"].as_str().unwrap_or("");
+            if !connected {
+                if weak {
+                    out.violate("C17.weak_when_unjudgeable", "disconnected_whole_loop", now, format!("{label} reported weak ({reason}) while disconnected (real loop)"));
+                }
+                self.c17.remove(label);
+                continue;
+            }
+            let h = self.c17.entry(label.to_string()).or_insert((0, 0));
+            let share_weak = weak && matches!(reason, "low_share" | "no_traffic");
+            if h.1 > 0 {
+                out.probe("w.c17.probation_tick");
+                if weak {
+                    out.violate("C17.probation", "not_honoured_whole_loop", now, format!("{label} is owed {} forced not-weak tick(s) after 15 share-weak verdicts but was reported weak ({reason}) (real loop)", h.1));
+                }
+                h.1 -= 1;
+            }
+            if share_weak {
+                out.probe("w.c17.share_weak_tick");
+                h.0 += 1;
+                if h.0 > 15 {
+                    out.violate("C17.probation", "run_too_long_whole_loop", now, format!("{label}: {} consecutive share-weak verdicts without a probation (real loop)", h.0));
+                    h.0 = 0;
+                } else if h.0 == 15 {
+                    out.probe("w.c17.probation_armed");
+                    h.1 = 3;
+                    h.0 = 0;
+                }
+            } else {
+                h.0 = 0;
+            }
         }
     }
 
@@ -332,6 +383,8 @@ impl WMon {
         }
         self.dead_since.remove(&path);
         self.ka_window.remove(&path);
+        let via = format!(" via {}", crate::lsim::path_ip(path));
+        self.c17.retain(|k, _| !k.ends_with(&via));
         self.registered.remove(&path);
         self.heard.remove(&path);
         self.last_ka.remove(&path);
@@ -528,6 +581,8 @@ async fn run(plan: &LPlan, want_excerpt: bool) -> RunOutcome {
         out.violate("W.harness", "", 0, "the real loop did not reach its uplink channel".into());
         return RunOutcome { violations: out.violations, ..Default::default() };
     };
+    let (stats_tx, mut stats_rx) = tokio::sync::mpsc::channel::<String>(4096);
+    let _stats_sub = hub.subscribe("stats", stats_tx).await;
     let mut env = Env::new(plan);
     let mut mon = WMon::default();
     mon.timeout_ms = plan.cfg.conn_timeout_ms;
@@ -733,6 +788,9 @@ async fn run(plan: &LPlan, want_excerpt: bool) -> RunOutcome {
                     push(&mut q, now + dt, Ev::ClientEmit(bytes));
                 }
             }
+        }
+        while let Ok(line) = stats_rx.try_recv() {
+            mon.on_stats(now, &line, &mut out);
         }
         mon.check_deadlines(now, &mut out);
         if out.violations.len() >= 8 {
